@@ -112,7 +112,11 @@ def _build(d, Pm):
         units = getattr(Pm.Units, d['unit']) if d.get('unit') else None
         if d['cls'] == 'Boolean':
             return cls(val, mask)
-        return cls(val, mask, units=units, drank=len(d['denom']))
+        obj = cls(val, mask, units=units, drank=len(d['denom']))
+        if d.get('tderiv') and CLS[d['cls']]['derivs'] and obj.is_float() and not d['denom']:
+            dv = np.asarray(arr, dtype=float) * 0.5 + 1.
+            obj.insert_deriv('t', cls(dv if dv.shape else dv.item()))
+        return obj
     if form in ('pyint', 'pyfloat', 'pybool'):
         return arr.item()
     if form in ('npint', 'npfloat'):
@@ -618,9 +622,16 @@ def observe(r, Pm):
             M = np.broadcast_to(np.asarray(r._mask_, bool), shape)
         except ValueError:
             return {'t': 'malformed', 'repr': repr(r)[:200]}
+        D = {}
+        for k, d in r._derivs_.items():
+            try:
+                D[k] = (np.broadcast_to(np.asarray(d._values_), shape + tuple(d._numer_) + tuple(d._denom_)),
+                        np.broadcast_to(np.asarray(d._mask_, bool), shape))
+            except ValueError:
+                D[k] = None
         return {'t': 'obj', 'cls': type(r).__name__, 'kind': kind_of(r._values_), 'lead': shape,
                 'numer': tuple(r._numer_), 'denom': tuple(r._denom_), 'V': V, 'M': M,
-                'wf': ok_shape, 'dtype': str(V.dtype)}
+                'wf': ok_shape, 'dtype': str(V.dtype), 'D': D}
     return {'t': 'other', 'repr': type(r).__name__ + ':' + repr(r)[:120]}
 
 
@@ -773,6 +784,23 @@ def same_answer(x, y, ulps):
     if ulps == 0:
         return bool(np.all(bits_equal(xv, yv)))
     return ulp_close(xv, yv, ulps)
+
+
+def same_derivs(x, y):
+    """the derivatives of the reflected / mixed form are those of the direct form (keys; values where the result and
+    the derivative are unmasked)"""
+    if x['t'] != 'obj' or y['t'] != 'obj':
+        return True
+    if sorted(x['D']) != sorted(y['D']):
+        return False
+    for k in x['D']:
+        a, b = x['D'][k], y['D'][k]
+        if a is None or b is None or a[0].shape != b[0].shape:
+            return False
+        hide = np.broadcast_to((x['M'] | a[1] | b[1]).reshape(x['lead'] + (1,) * (a[0].ndim - len(x['lead']))), a[0].shape)
+        if not np.allclose(np.where(hide, 0., a[0]), np.where(hide, 0., b[0]), rtol=1e-12, atol=0., equal_nan=True):
+            return False
+    return True
 
 
 # ---------------------------------------------------------------------------
@@ -1289,6 +1317,23 @@ def run_case(c, Pm):
             ulps = res['ref'].ulps if isinstance(res['ref'], Res) else 4
             if not same_answer(res['impl'], res['direct'], ulps):
                 res['bad'].append('reflected-differs-from-direct')
+            elif res['impl']['t'] == 'obj' and c['op'] in ('add', 'sub', 'mul', 'truediv'):
+                # the same pair of runs with a derivative on the polymath operand (seeded change C04-I: a shortcut
+                # of the reflected subtraction kept the derivative's sign)
+                import copy as _copy
+                c2 = _copy.deepcopy(c)
+                for side in ('a', 'b'):
+                    if c2[side]['form'] == 'qube':
+                        c2[side]['tderiv'] = True
+                try:
+                    with warnings.catch_warnings():
+                        warnings.simplefilter('ignore')
+                        ops2 = direct_operands(c2, Pm)
+                    r1, r2 = run_impl(c2, Pm), run_impl(c2, Pm, operands=ops2)
+                    if not same_derivs(r1, r2):
+                        res['bad'].append('reflected-derivative-differs-from-direct')
+                except Exception:       # noqa
+                    pass
     # in-place form: whenever x op y has the class, kind and shape of x and x op= y is accepted, both give the
     # same answer (mask included) - for every operand form (number, ndarray, MaskedArray, list, object)
     if c['op'] in IPYOP and c['a']['form'] == 'qube' and res['impl']['t'] == 'obj':
